@@ -12,10 +12,23 @@ RULE = ("tame and app sessions with failing setups (before / after the base meth
         "the entry and never inside replace; non-trivial = a screen shown >= 2 times or a failed setup")
 
 
+def gen_over_itself(rnd):
+    """one screen object on the stack twice, one entry right above the other with equal arguments (a screen that pushes itself); from its refresh() the upper entry
+    closes itself, or replaces itself by yet another entry of the same screen"""
+    args = rnd.choice([None, 1])
+    what = rnd.choice([["close_direct"], ["replace", 0, args], ["close_sig", 0]])
+    k = rnd.choice([1, 2])
+    refresh = [{} for _ in range(k)] + [{"acts": [what]}] + [{} for _ in range(6)]
+    s0 = dict(id=0, name="S0", title=None, text="t", height=30, input_required=True, no_separator=False, skip_check=False,
+              scripts={"refresh": refresh, "input": [{"acts": [[rnd.choice(["push", "push_modal"]), 0, args]], "ret": "PROCESSED"}] + [{"ret": rnd.choice(["REDRAW", "DISCARDED", "PROCESSED"])} for _ in range(5)]})
+    return dict(op="machine", mode="tame", width=80, screens=[s0], handlers=[], init=[["schedule", 0, args]], stdin=[rnd.choice(["x", "r", ""]) for _ in range(rnd.randint(2, 6))],
+                quit_cb=None, quit_screen=None, exc_handler=True, run_empty=False, deliver_at=[])
+
+
 def generate(rnd, tier):
     n = 500 if tier == "quick" else 6000
     sid = SidCounter()
-    cases = [gen_case(rnd, "tame", sid) for _ in range(n)] + [gen_case(rnd, "app", sid) for _ in range(n)]
+    cases = [gen_over_itself(rnd) for _ in range(n // 10)] + [gen_case(rnd, "tame", sid) for _ in range(n)] + [gen_case(rnd, "app", sid) for _ in range(n)]
     return [with_cc(c) for c in cases]
 
 
@@ -43,12 +56,16 @@ def monitor(case, obs):
                     if failed.get(scr) and not ready.get(scr): return "%s() of %s ran although its setup reported failure" % (cb, name)
                 if cb == "refresh":
                     if scr not in refreshed and counts.get(scr, 0) == 0: return "refresh() of %s ran before its setup()" % name
-                    refreshed.add(scr); last_refresh.setdefault(scr, []).append((i, ev[3]))
+                    refreshed.add(scr); last_refresh.setdefault(scr, []).append((i, ev[3], ctx.get("top", "?")))
                 if cb == "show":
                     # activations can nest (a refresh() that itself processes signals causes a complete nested refresh; show of the same screen before the
                     # outer activation draws): a show belongs to the latest refresh of that screen that has not been followed by its show yet
                     if not last_refresh.get(scr): return "show_all() of %s without a preceding refresh() of its own" % name
                     lr = last_refresh[scr].pop()
+                    # what is drawn is the stack entry that was just refreshed - the entry itself, not another entry showing the same screen (one that replaced it
+                    # or lies beneath it was not refreshed for this draw)
+                    if lr[2] != "?" and ctx.get("top", "?") != "?" and lr[2] != ctx["top"]:
+                        return "show_all() of %s draws a stack entry that is not the one its refresh() was run for (the stack changed during refresh())" % name
                     if not nesting:
                         between = [e for e, c in x.x[lr[0] + 1:i] if e[0] == "cb" and e[1] == scr]
                         if between: return "show_all() of %s is not directly preceded by its refresh(): %r in between" % (name, between[:3])
